@@ -2704,8 +2704,8 @@ impl HStep {
                     HSrc::Off(o, l, n) => format!("(B+{o}, {l}, node {n})"),
                     HSrc::Held(dw, l, n) => format!("(own wall{dw:+}, {l}, node {n})"),
                     HSrc::Phys(dw, l, n) => format!("(physical reading{dw:+}, {l}, node {n})"),
-                    HSrc::Issued(k) => format!("issued#{k}"),
-                    HSrc::Again(k) => format!("received#{k} again"),
+                    HSrc::Issued(k) => format!("(copy of the timestamp handed out {k}-th, counting from 0 over all clocks incl. calibrations)"),
+                    HSrc::Again(k) => format!("(the timestamp received {k}-th, counting from 0 modulo the number received, once more)"),
                 };
                 format!("clock{c}.receive{s} physical={}", hphys_txt(phys))
             }
